@@ -8,15 +8,15 @@ CHECKS = {
         text="TLC enumerates every record AST of the documented grammar over small alphabets (all optional-part combinations, 5 terminators, 9 documented malformations), checks the code-shaped TLA+ parser against the declarative printer/denotation, and every enumerated line is replayed into the real parser; corpus and mutated lines are validated in the other direction.",
         design="4 C05", note="Bounded alphabets; corpus lines constrained only when the TLA+ printer reproduces them; trusted: TLC, Json module, harness encoder (canary-checked)."),
     "C06": dict(
-        technique="stream laws (declarative TLA+) model-checked on the code-shaped TLA+ parser for all strings within bounds; the same strings plus fuzzed/corpus inputs run through the real iterator and the recorded item streams validated by TLC against the laws; line fragments and F-cut generator (a line cut at every byte position followed by well-formed lines); whole corpus files in CRLF form through the RecordIter stateful trace spec",
+        technique="stream laws (declarative TLA+) model-checked on the code-shaped TLA+ parser for all strings within bounds; the same strings plus fuzzed/corpus inputs run through the real iterator and the recorded item streams validated by TLC against the laws; line fragments and F-cut generator (a line cut at every byte position followed by well-formed lines); whole corpus files in CRLF form through the RecordIter stateful trace spec; the iterator as a state machine (MC_RecordIter): forward progress and fusedness as action properties, TERMINATION as a liveness property under weak fairness, over every byte string within the bound; several record iterators open at once over mapping values, sub-mappings and clones, stepped in every order TLC enumerates (System.tla RecBegin/RecNext, MC_System focus `records`); truncated / invalid / valid multi-byte sequences at every byte position (MC_Stream mode utf8)",
         text="TLC enumerates every byte string (<=5 quick / <=6 thorough over 9 delimiter symbols) and every token string (<=4 / <=5 over 14 tokens incl. the sourceFile prefix), checks item count, no-terminator-in-field and the resynchronisation law at every LF split on the specification's parser; every string up to the emit bound and seeded byte soups, mutated files and corpus files are fed to the real iterator whose recorded item streams must satisfy the same TLA+ laws.",
         design="4 C06", note="L4 read on Ok records and non-blank error lines; bounded exhaustive + sampled; trusted: TLC, harness event recorder (canary-checked)."),
     "C19": dict(
-        technique="TLA+ folds (declarative) vs scanning step machines model-checked by TLC; TLC-generated files (49/50/51-item window boundary, header variants) replayed into is_valid/has_line_info/summary; real answers on generated/corpus files validated by TLC against the folds over the recorded item stream",
+        technique="TLA+ folds (declarative) vs scanning step machines model-checked by TLC; TLC-generated files (49/50/51-item window boundary, header variants) replayed into is_valid/has_line_info/summary; real answers on generated/corpus files validated by TLC against the folds over the recorded item stream; files whose records share physical lines (a class record ends at its ':'), from TLC (glued printing) and from the generators; liveness: the three scans terminate (MC_Meta_live)",
         text="TLC checks the three code-shaped scanning machines against the declarative folds for every abstract item stream within the bound (window crossed exhaustively with Window=3), generates concrete files around the real 50-item window with last-header-wins and u32 min_api variants whose expected answers the folds assign, and validates the real answers for generated, mutated and corpus files against the folds applied to the item stream the library's own iterator yielded.",
         design="4 C19", note="Item abstraction recorded by the harness; parser behaviour itself is C05/C06. Trusted: TLC, Json module, harness (canary-checked)."),
     "C01": dict(
-        technique="declarative TLA+ index/answer (Index.tla, Retrace.tla); TLC enumerates small mapping files (entry alphabet x sourceFile contexts, 5 byte-level variants) with spec-assigned answers replayed into mapper, mapper+params and cache; real sessions (generated + corpus files, query universe) validated by TLC trace spec that parses the bytes itself; cursor machine FrameIter.tla model-checked against the declarative answer and every next() call of the real iterators (incl. calls after exhaustion) validated step by step as an ordered log (stateful trace spec with deadlock = rejected line); handles obtained through From<&str>, From<(&str,bool)> and Clone are validated like the principal three; corpus-scale files (9.7k and 29k lines): handles built from the whole file, answers validated class block by class block (Trace_Blocks)",
+        technique="declarative TLA+ index/answer (Index.tla, Retrace.tla); TLC enumerates small mapping files (entry alphabet x sourceFile contexts, 5 byte-level variants) with spec-assigned answers replayed into mapper, mapper+params and cache; real sessions (generated + corpus files, query universe) validated by TLC trace spec that parses the bytes itself; cursor machine FrameIter.tla model-checked against the declarative answer and every next() call of the real iterators (incl. calls after exhaustion) validated step by step as an ordered log (stateful trace spec with deadlock = rejected line); handles obtained through From<&str>, From<(&str,bool)> and Clone are validated like the principal three; corpus-scale files (9.7k and 29k lines): handles built from the whole file, answers validated class block by class block (Trace_Blocks); MC_Retrace mode `ranges`: every list of <=3/4 entries of one obfuscated name over an interval alphabet in which every interval relation occurs (any search structure over the entry list must agree with the plain scan)",
         text="Exhaustive over single entries (8 ranges x 6 original ranges x 3 foreign classes x 3 file contexts) and bounded pairs, each in LF/CRLF/CR/noise/permuted variants, 9 lines incl. 2^32 and 2^64-1 extremes, file present/absent; plus seeded sessions over generated and corpus mappings where TLC re-derives every answer from the bytes.",
         design="4 C01", note="Bounded alphabets; sampled sessions. Trusted: TLC, Json module, harness encoders (canary-checked)."),
     "C02": dict(
@@ -24,7 +24,7 @@ CHECKS = {
         text="Mapper (with and without parameter index) and cache are each compared, query for query, with Retrace!Answer over the declarative index of the same bytes; any disagreement between two handles is therefore a rejected case or trace event.",
         design="4 C02", note="Stack-trace text/typed and signature agreement are exercised under C07/C08/C16. Bounded + sampled."),
     "C03": dict(
-        technique="declarative by-params view (non-inlined, first occurrence per class) in TLA+; TLC enumerates 2..3 class blocks x <=2 methods and all record sequences <=2/3 over a 31-letter alphabet; replay into mapper+params and cache; trace validation of real sessions; Builder.tla cache variant model-checked (all record sequences <=4/6 over 7 letters), pinned offset variant refuted",
+        technique="declarative by-params view (non-inlined, first occurrence per class) in TLA+; TLC enumerates 2..3 class blocks x <=2 methods and all record sequences <=2/3 over a 31-letter alphabet; replay into mapper+params and cache; trace validation of real sessions; Builder.tla cache variant model-checked (all record sequences <=4/6 over 7 letters), pinned offset variant refuted; MC_Retrace mode `ranges` queried by parameters (originals in every order, interleaved duplicates)",
         text="Exhaustive over small multi-class files (repeated class names, inline pairs, duplicates across blocks, with/without ranges) with every (class, method, params) triple of the universe; seeded sessions validated by TLC.",
         design="4 C03", note="Bounded alphabets; trusted: TLC, Json module, harness (canary-checked)."),
     "C04": dict(
@@ -32,11 +32,11 @@ CHECKS = {
         text="All sequences of <=3 (quick) / <=4 class blocks over 9 adversarial obfuscated names (prefixes, $ and . variants, non-ASCII, duplicates) with 19 probe names incl. sort neighbours; coherence between method lookup and line frames is an invariant of the model; real sessions with hundreds of similar names validated by TLC.",
         design="4 C04", note="Bounded alphabets; trusted: TLC, Json module, harness (canary-checked)."),
     "C07": dict(
-        technique="text remapper as a TLA+ line machine (TraceRemap.tla) over byte-level line classifiers (StackTraceSyntax.tla); TLC enumerates all texts <=3/4 lines over a 16-shape line alphabet x {3-class mapping, empty mapping} with laws checked and outputs replayed into both implementations; generated Java traces validated by TLC with hybrid line classification",
+        technique="text remapper as a TLA+ line machine (TraceRemap.tla) over byte-level line classifiers (StackTraceSyntax.tla); TLC enumerates all texts <=3/4 lines over a 16-shape line alphabet x {3-class mapping, empty mapping} with laws checked and outputs replayed into both implementations; generated Java traces validated by TLC with hybrid line classification; lines that parse to equal frames but differ as text, and a 9-shape tail alphabet from the third line on",
         text="Exhaustive over short texts of every line shape (mapped/unmapped throwable, cause variants incl. indented, mapped frames resolving to 1 or 2 frames, tab-indented, Native Method, '... n more', blank, look-alike, free text; CRLF and missing final newline) with the identity-under-empty-mapping law; seeded traces over generated and corpus mappings validated line by line.",
         design="4 C07", note="Bounded line alphabet; sampled traces. Trusted: TLC, Json module, harness (canary-checked)."),
     "C08": dict(
-        technique="TypedRemap + TypedLaw + typed/text agreement in TLA+, model-checked; the pinned 'dropped exception' variant must be refuted by TLC; typed traces (depth<=2/3, <=2 frames per level) replayed through remap_stacktrace_typed on mapper and cache; generated typed traces validated by TLC",
+        technique="TypedRemap + TypedLaw + typed/text agreement in TLA+, model-checked; the pinned 'dropped exception' variant must be refuted by TLC; typed traces (depth<=2/3, <=2 frames per level) replayed through remap_stacktrace_typed on mapper and cache; generated typed traces validated by TLC; runs of 3 and 4 identical frames",
         text="All typed traces over {mapped, mapped with message, unmapped, other mapped} throwables x 5 frame kinds (resolve to 1, to 2, known method no entry, unknown class, no-range entry) up to depth 2 (quick) / 3 (thorough): exact result, preservation law and agreement of printed result with the text API on canonical traces.",
         design="4 C08", note="Canonical = top level has an exception or frame, cause levels have exceptions, frames carry files. Bounded + sampled."),
     "C16": dict(
@@ -52,7 +52,7 @@ CHECKS = {
         text="For generated mappings (0..45 classes, member-less classes, shared/non-ASCII/>127-byte strings, noise) and corpus files, TLC decodes the written bytes itself and checks magic/version/counts, strict class order, exact tiling of member and by-params ranges in class order, intra-class order, 8-byte alignment with zero padding, string readability/sentinels, exact length, equality of the decoded index with Index!Blocks, and that the library self-test returned.",
         design="4 C09", note="Files are decoded whole by TLC (sizes up to a few 10 KB); sampled inputs. Trusted: TLC, Json module, harness byte recorder (canary-checked)."),
     "C11": dict(
-        technique="acceptance rule ParseOutcome in TLA+ model-checked over all file shapes x every cut point x header edits (MC_CacheParse), crash-leaves-prefix invariant of the writer/sink protocol (MC_CacheIO), and real ProguardCache::parse outcomes on every prefix / header edit of real files validated by TLC; the two statements 'no torn file is accepted' and 'the complete file is accepted' proved for ALL sizes with TLAPS over the integer rule (spec/CacheLayout.tla, spec/proofs/CacheLayoutProofs.tla, 48 obligations), which MC_CacheParse ties to the byte-level rule",
+        technique="acceptance rule ParseOutcome in TLA+ model-checked over all file shapes x every cut point x header edits (MC_CacheParse), crash-leaves-prefix invariant of the writer/sink protocol (MC_CacheIO), and real ProguardCache::parse outcomes on every prefix / header edit of real files validated by TLC; the two statements 'no torn file is accepted' and 'the complete file is accepted' proved for ALL sizes with TLAPS over the integer rule (spec/CacheLayout.tla, spec/proofs/CacheLayoutProofs.tla, 48 obligations), which MC_CacheParse ties to the byte-level rule; histories inside whole API programs (System.tla: WriteCrash, Truncate, Overwrite, ParseCache with verdict; MC_System focus `torn`, every program of 5/6 calls run against the library and validated by Trace_System): what a failed write leaves behind and torn / damaged copies are parsed with exactly the verdict the format prescribes, before and after successful writes of the same mapping",
         text="Exhaustive for shapes up to 2x2x2 entries and 5 string bytes (quick) / 3x3x3x9: every strict prefix rejected, stated error kinds for flipped/foreign magic, version, over-declared sections and strings; on real files every prefix of the first three files, sampled prefixes of the rest and 40+ single-field header edits each must produce exactly the outcome (kind, expected, found) ParseOutcome predicts.",
         design="4 C11", note="Since no strict prefix is accepted, the 'or answers like the full file' branch is vacuous and any acceptance is reported."),
     "C14": dict(
@@ -60,7 +60,7 @@ CHECKS = {
         text="Different processes have different hash seeds and addresses; any dependence of the output on HashMap/HashSet iteration order or uninitialised padding shows up as differing copies.",
         design="4 C14", note="Sampled mappings (generated + small corpus files). The writer model with nondeterministic container order is future work listed in DESIGN."),
     "C15": dict(
-        technique="writer/sink protocol as a TLA+ state machine (CacheIO.tla) model-checked for every sink response at every call; the pinned single-write padding variant must be refuted; TLC-generated sink schedules (cap k=1..16, short/zero/fail/interrupt at call i) replayed through ProguardCache::write with a scripted sink; recorded runs with every sink call validated by TLC (RecordedProtocol)",
+        technique="writer/sink protocol as a TLA+ state machine (CacheIO.tla) model-checked for every sink response at every call; the pinned single-write padding variant must be refuted; TLC-generated sink schedules (cap k=1..16, short/zero/fail/interrupt at call i) replayed through ProguardCache::write with a scripted sink; recorded runs with every sink call validated by TLC (RecordedProtocol); liveness: every write ends (ok, err or crash) under weak fairness with bounded interruptions (MC_CacheIO_live); failing writes inside whole API programs (System!WriteCrash): what the sink had accepted is a prefix of every successful write of the same mapping, earlier or later",
         text="Success implies the sink holds exactly the canonical bytes; a reported failure implies an error result and a prefix; every offered buffer is the next bytes of the canonical file.",
         design="4 C15", note="Canonical = what the same build writes into a Vec. Bounded exhaustive on the model, 88 policy schedules on a real one-class file, seeded policies on generated mappings."),
     "C10": dict(
@@ -68,19 +68,19 @@ CHECKS = {
         text="For every mapping both releases write a cache; both readers parse both files and answer 60..120 queries each (class, method, frames by line/params, throwable, text trace, signature); a file must be rejected with WrongVersion by one of them or answered identically by both.",
         design="4 C10", note="pinned/proguard-5.5.0 is a verbatim copy (git show f3fcb84:src/...). Sampled mappings in the stated domain."),
     "C12": dict(
-        technique="machine-integer model of the cache reader's line arithmetic over ALL field values at small width (MC_LineArith; the unchecked pinned variant must be refuted); F-field corruptions of real caches (boundary values into any u32 field, record swaps, bit flips, string/LEB128/UTF-8 damage, random bodies, header counts) probed with the full query surface under catch_unwind; completion and pointer provenance of every returned string validated by TLC; exhaustive single-field boundary edits of every record of small files; CacheReader.tla step machines (binary search, range expansion, checked slicing) model-checked on unsorted arrays for bounds and termination",
+        technique="machine-integer model of the cache reader's line arithmetic over ALL field values at small width (MC_LineArith; the unchecked pinned variant must be refuted); F-field corruptions of real caches (boundary values into any u32 field, record swaps, bit flips, string/LEB128/UTF-8 damage, random bodies, header counts) probed with the full query surface under catch_unwind; completion and pointer provenance of every returned string validated by TLC; exhaustive single-field boundary edits of every record of small files; CacheReader.tla step machines (binary search, range expansion, checked slicing) model-checked on unsorted arrays for bounds and termination; the saturating line rule proved for EVERY width and all field values with TLAPS (LineArith.tla, LineArithProofs.tla: NoOverflow, Exact, Clamped, Monotone); systematic string-section edits (over-long LEB128 prefixes at every string start); damaged and torn copies inside whole API programs (System.tla, focus `torn`) and random programs: a panic anywhere in a program is reported",
         text="Every accepted corrupted buffer must let class/method/frame (line, file, params; lines 0, 2^31, 2^32-2..2^32, 2^64-1)/throwable/text+typed trace/signature/Debug queries return, and every returned &str must point into the buffer or the query.",
         design="4 C12", note="Memory safety of the two unsafe Pod casts is observed only through results. Sampled corruptions (1.4k quick / 7k thorough buffers)."),
     "C13": dict(
-        technique="MC_LineArith for mapper and cache (unchecked variants refuted, saturating variants clean at small width); wild sessions (byte soups, mutated files, grammar with numbers around 2^32 and 2^64, empty names, invalid UTF-8) driven through mapper x2, cache write+parse, queries with extreme lines, arbitrary Unicode trace/signature text; TLC trace spec requires every call to complete and in-domain answers to equal Retrace!Answer; bounded-exhaustive token soups (all strings of <=5/6 tokens over the delimiters and multi-byte characters) through signature and stack-trace entry points, summarised per API",
+        technique="MC_LineArith for mapper and cache (unchecked variants refuted, saturating variants clean at small width); wild sessions (byte soups, mutated files, grammar with numbers around 2^32 and 2^64, empty names, invalid UTF-8) driven through mapper x2, cache write+parse, queries with extreme lines, arbitrary Unicode trace/signature text; TLC trace spec requires every call to complete and in-domain answers to equal Retrace!Answer; bounded-exhaustive token soups (all strings of <=5/6 tokens over the delimiters and multi-byte characters) through signature and stack-trace entry points, summarised per API; LineArithProofs (TLAPS): no intermediate value or result of the line rule leaves 0..UMax, for every width",
         text="Harness built with overflow checks: a wrapping overflow is a panic and is recorded as data; any panic or Err from build/write/parse/query rejects the trace.",
         design="4 C13", note="Sampled inputs (90 quick / 400 thorough sessions x 60 queries + 24 other API calls each)."),
     "C18": dict(
-        technique="UUIDv5 / SHA-1 transcribed into TLA+ (spec/lib/Sha1.tla with 16-bit half words + Bitwise, spec/Uuid.tla) and evaluated by TLC on the exact bytes of every recorded ProguardMapping::uuid call; repeats in 3 other processes must agree; identifiers of section() sub-mappings taken before/after the parent's uuid() call and of clones; normalisation probes (BOM, leading/trailing white space and terminators, NUL, every single byte)",
+        technique="UUIDv5 / SHA-1 transcribed into TLA+ (spec/lib/Sha1.tla with 16-bit half words + Bitwise, spec/Uuid.tla) and evaluated by TLC on the exact bytes of every recorded ProguardMapping::uuid call; repeats in 3 other processes must agree; identifiers of section() sub-mappings taken before/after the parent's uuid() call and of clones; normalisation probes (BOM, leading/trailing white space and terminators, NUL, every single byte); reused-buffer histories (one buffer refilled in place with different contents of equal length; freed and reallocated buffers)",
         text="Empty input, SHA-1 block-boundary lengths (55/56/64/119/120), corpus prefixes in LF and CRLF form, random bytes; expected value computed by TLC only.",
         design="4 C18", note="Function transcription, not state exploration; inputs up to 8 KiB (quick) / 256 KiB (thorough), below the statement's 1 MiB."),
     "C20": dict(
-        technique="Sharing.tla (thread-local cursors over an immutable handle) model-checked for all interleavings, shared-cursor variant refuted; Send+Sync asserted by rustc on 16 public types (harness/sendsync); 2..16 threads behind a barrier query one shared mapper / mapper+params / parsed cache, per-thread sequence numbers, every event validated by TLC against Retrace!Answer; typed/text/signature APIs from 16 threads with cause chains of depth 8..14, every call repeated 150 (quick) / 300 times, unstable results recorded and rejected by TLC",
+        technique="Sharing.tla (thread-local cursors over an immutable handle) model-checked for all interleavings, shared-cursor variant refuted; Send+Sync asserted by rustc on 16 public types (harness/sendsync); 2..16 threads behind a barrier query one shared mapper / mapper+params / parsed cache, per-thread sequence numbers, every event validated by TLC against Retrace!Answer; typed/text/signature APIs from 16 threads with cause chains of depth 8..14, every call repeated 150 (quick) / 300 times, unstable results recorded and rejected by TLC; liveness: every thread that keeps stepping finishes its query whatever the others do (MC_Sharing_live, per-thread weak fairness); malformed neighbours in front of every descriptor in each worker thread's stream",
         text="Each concurrent query must return exactly the single-threaded declarative answer.",
         design="4 C20", note="Auto traits are decided by the Rust type checker, not TLC; interleavings are those the OS scheduler produces."),
 }
